@@ -477,8 +477,16 @@ def _rounds(ck, P, cfg):
         if after_barrier:
             ck.holds("C20.5", inst, c.where, "after the shutdown barrier every thread runs the same flushing rounds; none writes a record for them", cfg)
         else:
-            forwards = kind == "var" and any(dst.name in X.show(a) for s in f.calls("stats_on_gvt") for a in X.callee_args(s))
-            if forwards:
+            fw = [s for s in f.calls("stats_on_gvt") if kind == "var" and any(dst.name in X.show(a) for a in X.callee_args(s))]
+            forwards = bool(fw)
+            # the value must be looked at before the next call overwrites it: no path from the call back to itself that
+            # avoids the test of its result
+            tests = [B.cond for B in g.blocks.values() if B.cond is not None and kind == "var" and any(x.k == "DeclRefExpr" and x.name == dst.name for x in B.cond.walk())]
+            overwritten = forwards and g.escapes(g.position(c), {t.id for t in tests} | {s.id for s in fw}, goal="none", goal_ids={c.id})
+            if forwards and overwritten:
+                ck.violated("C20.5", inst, c.where, "the result of gvt_phase_run is overwritten by the next call before it is looked at (it is forwarded only after the loop): the call that "
+                            "completes a round returns its value one step before the automaton goes idle, the last call returns 0, so the completed round is never logged by this thread", cfg)
+            elif forwards:
                 ck.holds("C20.5", inst, c.where, "result forwarded", cfg)
             else:
                 ck.violated("C20.5", inst, c.where, "a thread that leaves the worker loop in the middle of a GVT round completes that round here and discards its value, while the threads "
